@@ -137,6 +137,7 @@ type Daemon struct {
 	done   chan struct{}
 	mu     sync.Mutex
 	panicV string // set when the sync goroutine panicked
+	JournalMode, Synchronous string // as configured by the daemon's own Init
 }
 
 // OpenDaemon runs node.NewPegnetd on dir/sql.db (created if missing) with the statement-counting
@@ -157,9 +158,15 @@ func OpenDaemon(dir string, fake *FakeFactom) (*Daemon, error) {
 	d := &Daemon{N: n, Fake: fake, Dir: dir, DBPath: filepath.Join(dir, "sql.db.v4"), cancel: cancel}
 	n.FactomClient.Factomd.Transport = fake
 	n.FactomClient.Factomd.Timeout = 20 * time.Second
-	// swap the connection pool for one that goes through the wrapper
+	// swap the connection pool for one that goes through the wrapper — with the SAME storage
+	// configuration the daemon's own Init chose for its connections (journal mode, synchronous):
+	// crash consistency depends on it
 	old := n.Pegnet.DB
-	db, err := sql.Open("sqlite3_verif", d.DBPath)
+	jm, sy := "delete", "2"
+	old.QueryRow("PRAGMA journal_mode").Scan(&jm)
+	old.QueryRow("PRAGMA synchronous").Scan(&sy)
+	d.JournalMode, d.Synchronous = strings.ToLower(jm), sy
+	db, err := sql.Open("sqlite3_verif", d.DBPath+"?_journal="+strings.ToUpper(jm)+"&_sync="+sy)
 	if err != nil {
 		cancel()
 		return nil, err
